@@ -18,7 +18,8 @@ THEOREMS = ['ParsecVerif.C02.C02_order', 'ParsecVerif.C02.C02_final', 'ParsecVer
             'ParsecVerif.PtgRt.graphOf_WF', 'ParsecVerif.PtgRt.preds_edge', 'ParsecVerif.PtgRt.topo_run', 'ParsecVerif.PtgRt.exec_commute',
             'ParsecVerif.PtgRt.fold_perm_of_commute', 'ParsecVerif.PtgRt.runOrder_topo_eq', 'ParsecVerif.PtgRt.raceFreeB_sound',
             'ParsecVerif.PtgRt.nodeDs_targetsOK', 'ParsecVerif.PtgRt.get_runOrderL',
-            'ParsecVerif.Runtime.deps_respected', 'ParsecVerif.Runtime.quiescent_all_once']
+            'ParsecVerif.Runtime.deps_respected', 'ParsecVerif.Runtime.quiescent_all_once',
+            'ParsecVerif.C02.async_writeback_witness', 'ParsecVerif.C02.C02_final_async_full_false']
 IMPL = ('generated code of parsec-ptgpp (jdf2c.c: data_lookup, iterate_successors, release_deps, complete_hook write-back) + parsec/parsec.c '
         '(parsec_release_dep_fct, dependency counting), parsec/datarepo.c, parsec/remote_dep_mpi.c (parsec_remote_dep_memcpy), both --dep-management back-ends')
 ENGINE = 'lean-trace'
@@ -35,7 +36,7 @@ LEVEL_TEXT = ('Lean 4 theorems for EVERY program of the JDF AST that satisfies t
 LEVEL_NOTE = ('Theorem: everything above, about the model (graphOf, node actions, machine). Sampled: the real runtime on generated programs (schedules are whatever the OS gives); per run the trace '
               'is replayed on the machine and all values compared. Modelling assumptions stated as decidable side conditions checked per program (asyncSafeB): the write-back -> ddesc(e) from a '
               'foreign copy is executed later by the communication thread (parsec_remote_dep_memcpy queues DEP_MEMCPY), the model applies it when the body ends; programs where a later task touches '
-              'the source copy or the tile are outside the subset. Bodies are atomic at their end in the model; overlapping real bodies are unordered hence non-conflicting in race-free programs. '
+              'the source copy or the tile are outside the subset — for them the sequential-execution statement is FALSE of the code (C02_final_async_full_false, witness replayed on the real runtime on every run: known finding). Bodies are atomic at their end in the model; overlapping real bodies are unordered hence non-conflicting in race-free programs. '
               'Not covered: typed / reshaped flows (C18), remote edges (C05), GPU copies, range (gather) inputs on data flows, user-defined functions. '
               'Trusted: Lean kernel, propext/Classical.choice/Quot.sound, the generator (JDF text and AST from one value), harness/ptg_rt.c, lib/pvptgrt.py.')
 TECHNIQUE = 'Lean 4 proof (commutation of independent node actions + invariant "completion order is topological") + differential whole-program runs with a trace acceptor and a reference interpreter'
@@ -103,9 +104,59 @@ def evaluate(prog, g, cfg, tr, r):
                   'tiles_changed': len(tr['final'] or {}), 'values_compared': sum(len(e[4]) for e in tr['events'])})
 
 
+KNOWN_ASYNC_KEY = 'writeback-to-collection-asynchronous-stale-read'
+
+
+def probe_finding(ctx, res, p):
+    """corpus programs marked `finding`: race free in the synchronous model but NOT asyncSafe — a consumer ordered after the
+    producer reads the tile the producer writes back.  The Lean side must agree that they are outside (asyncsafe false); the
+    real runtime is run a few times: event order / exactly-once must hold, a stale read is the known finding."""
+    g = p.gvecs[0]
+    mv = pvptgrt.model_valid(p, g)
+    if not (mv['wf'] and mv['racefree']) or mv['asyncsafe']:
+        res.disagreements.append({'op': 'valid', 'impl': 'finding program: expected wf, racefree, NOT asyncsafe', 'model': str(mv), 'case': json.loads(p.to_case())})
+        return
+    exe, log = pvptgrt.build_cached(ctx, p, pvptg.BACKENDS[0])
+    if exe is None:
+        res.infra_errors.append('program %s does not build: %s' % (p.name, log[-400:])); return
+    seq, final = pvptgrt.py_seq(p, g)
+    stale = total = 0
+    for cfg in ({'sched': 'lfq', 'threads': 2, 'iter': 64, 'chunk': 256}, {'sched': 'gd', 'threads': 8, 'iter': 1, 'chunk': 1}, {'sched': 'ap', 'threads': 1, 'iter': 64, 'chunk': 256}):
+        rc, out, err = pvptgrt.run_cfg(exe, g, cfg)
+        tr = pvptgrt.parse_events(out)
+        res.evaluations += len(tr['events'])
+        fails = pvptgrt.oracle_basic(p, g, tr) + pvptgrt.oracle_order(p, g, tr)
+        if tr['final'] is not None and tr['final'] != final:
+            fails.append('final collection differs from a sequential execution')
+        ops, impl = pvptgrt.rt_ops(p, g, tr, cfg, with_data=False)
+        for d in pvptgrt.compare_rt(ops, impl, strip_data=True)[:2]:
+            d['case'] = json.loads(p.to_case({'config': cfg})); res.disagreements.append(d)
+        if fails:
+            res.violations.append({'key': 'C02:finding-program:%s' % fails[0][:80], 'what': fails[0], 'case': json.loads(p.to_case({'config': cfg}))})
+        for (k, c, env, th, vals) in tr['events']:
+            if k == 'B' and (c, env) in seq:
+                want = seq[(c, env)][0]
+                got = pvptgrt.pad(vals, len(want))
+                for fi, (a, b) in enumerate(zip(got, want)):
+                    if b is not None:
+                        total += 1
+                        if a != b:
+                            stale += 1
+                            first = (ptg_gen.inst_name(p, c, env), fi, a, b, cfg)
+    res.extra.setdefault('known_finding_probe', {})[p.name] = {'reads': total, 'stale': stale}
+    if stale:
+        res.violations.append({'key': KNOWN_ASYNC_KEY, 'what': '%s read %s in flow %d, a sequential execution gives %s (the producer\'s write-back to the collection had not been executed yet); %d of %d reads stale; %s' % (
+            first[0], first[2], first[1], first[3], stale, total, first[4]), 'case': json.loads(p.to_case({'config': first[4]}))})
+
+
 def run(ctx, res, cases=None):
     rng = pv.Rng(ctx.seed)
     corpus = pvptgrt.load_corpus(PROP)
+    probes = [p for p in corpus if getattr(p, 'meta', {}).get('finding')]
+    corpus = [p for p in corpus if p not in probes]
+    if cases is None:
+        for p in probes:
+            probe_finding(ctx, res, p)
     if cases is None:
         progs = corpus + pvptgrt.shared_programs(ctx.seed, 8 if ctx.quick else 20)
         forced = None
